@@ -8,8 +8,9 @@ from ..astutil import ancestors, call_name, calls_in, dotted, own_exprs, unparse
 from ..report import Registry, sub
 from ._helpers_rules_b import ordinal_keys
 from ._helpers_str_v import (
-    Variant, _block_of, _is_empty_literal, bind_call, filter_atoms, fmt_atoms, loop_as_comprehension, resolve_name, root_base, shape_of,
+    _block_of, _is_empty_literal, bind_call, filter_atoms, fmt_atoms, loop_as_comprehension, resolve_name, root_base, shape_of,
 )
+from ._helpers_str2_x import LookupVariant, dict_facts
 
 R = Registry(
     "C55",
@@ -571,7 +572,19 @@ def _opaque(tok) -> bool:
 
 
 def _variants(ctx, key, fc, fp):
-    return Variant(ctx, fc, True, key), Variant(ctx, fp, False, key)
+    """the two build variants; keyed lookups in a parameter that is a builtin dict (`self` of a Dict subclass, a `dict`
+    annotated parameter, the source of a `d: dict = p` local) are read as lookups, whatever their spelling (str2-x)"""
+    cache = ctx.__dict__.setdefault("_c55_variants", {})
+    k = (key, id(fc), id(fp))
+    if k not in cache:
+        m = ctx.index.module(key.split("::", 1)[0])
+        pm = m.parents()
+        out = []
+        for fn, pol in ((fc, True), (fp, False)):
+            dicts, doms = dict_facts(m, pm, fn)
+            out.append(LookupVariant(ctx, fn, pol, key, dicts, doms))
+        cache[k] = tuple(out)
+    return cache[k]
 
 
 def _apps_by_callee(v):
@@ -675,6 +688,9 @@ def r4(ctx):
                 vc_set = {(a.args, a.arg_guards) for a in ca}
                 vp_set = {(a.args, a.arg_guards) for a in pa}
                 if vc_set != vp_set:
+                    undeclared = sorted(t for _args, g in vc_set ^ vp_set for t, _p in g if t.startswith("?lookup"))
+                    ctx.require(not undeclared, f"{k}: the guards of `{callee}` differ in a test on a looked-up dictionary value whose "
+                                                f"type is not declared, they cannot be compared: {undeclared[:1]}")
                     fm = lambda s: sorted(f"{callee}({', '.join(args)}) when {fmt_atoms(g)}" for args, g in s)  # noqa: E731
                     problems.append(f"the compiled variant applies {fm(vc_set)}, the pure-Python variant applies {fm(vp_set)}: whether/with what the callable "
                                     f"is applied depends on the passed value differently in the two builds" + (_sibling_note(ctx, name, key) if ca[0].derived else ""))
@@ -684,6 +700,9 @@ def r4(ctx):
                     continue
                 gc, gp = {a.other_guards for a in ca}, {a.other_guards for a in pa}
                 if gc != gp:
+                    undeclared = sorted(t for g in gc ^ gp for t, _p in g if t.startswith("?lookup"))
+                    ctx.require(not undeclared, f"{k}: the guards of `{callee}` differ in a test on a looked-up dictionary value whose "
+                                                f"type is not declared, they cannot be compared: {undeclared[:1]}")
                     fm = lambda s: sorted(fmt_atoms(g) for g in s)  # noqa: E731
                     problems.append(f"{callee} is applied when {fm(gc)} by the compiled variant but when {fm(gp)} by the pure-Python variant")
                     continue
@@ -1016,3 +1035,76 @@ R.mutant('benign-tuplegetter-de-morgan', 'engine/_util_cy.py',
 R.mutant('benign-is-contiguous-result-local', 'engine/_util_cy.py',
          sub('        if prev != curr - 1:\n            return False\n    return True\n',
              '        if prev != curr - 1:\n            contiguous = False\n            return contiguous\n    return True\n'), None)
+
+# ---- str2-x (round-2 seeds): keyed lookups in a dict-like parameter (`self` of a Dict subclass) read as lookups
+_GET_ANON = (
+    "        idself: int = _get_id(obj)\n"
+    "        if idself in self_dict:\n"
+    "            return self_dict[idself], True\n"
+    "        else:\n"
+    "            return self._add_missing(idself), False\n"
+)
+R.mutant("seed-pure-get-anon-tests-truth-of-looked-up-index", SQLU,
+         sub(_GET_ANON,
+             "        idself: int = _get_id(obj)\n"
+             "        if cython.compiled:\n"
+             "            if idself in self_dict:\n"
+             "                return self_dict[idself], True\n"
+             "        else:\n"
+             "            val = self_dict.get(idself)\n"
+             "            if val:\n"
+             "                return val, True\n"
+             "        return self._add_missing(idself), False\n"), "C55-R4")
+R.mutant("pure-get-anon-falsy-index-re-registered-early-return", SQLU,
+         sub(_GET_ANON,
+             "        idself: int = _get_id(obj)\n"
+             "        if not cython.compiled:\n"
+             "            found = self_dict.get(idself, None)\n"
+             "            if not found:\n"
+             "                return self._add_missing(idself), False\n"
+             "            return found, True\n"
+             "        if idself in self_dict:\n"
+             "            return self_dict[idself], True\n"
+             "        else:\n"
+             "            return self._add_missing(idself), False\n"), "C55-R4")
+R.mutant("benign-pure-get-anon-single-lookup-tested-against-none", SQLU,
+         sub(_GET_ANON,
+             "        idself: int = _get_id(obj)\n"
+             "        if cython.compiled:\n"
+             "            if idself in self_dict:\n"
+             "                return self_dict[idself], True\n"
+             "        else:\n"
+             "            val = self_dict.get(idself)\n"
+             "            if val is not None:\n"
+             "                return val, True\n"
+             "        return self._add_missing(idself), False\n"), None)
+R.mutant("benign-pure-get-anon-none-default-inverted-arms-swapped", SQLU,
+         sub(_GET_ANON,
+             "        idself: int = _get_id(obj)\n"
+             "        if not cython.compiled:\n"
+             "            found = self_dict.get(idself, None)\n"
+             "            if found is None:\n"
+             "                return self._add_missing(idself), False\n"
+             "            return found, True\n"
+             "        else:\n"
+             "            if idself not in self_dict:\n"
+             "                return self._add_missing(idself), False\n"
+             "            return self_dict[idself], True\n"), None)
+R.mutant("benign-pure-get-anon-walrus-lookup", SQLU,
+         sub(_GET_ANON,
+             "        idself: int = _get_id(obj)\n"
+             "        if cython.compiled:\n"
+             "            if idself in self_dict:\n"
+             "                return self_dict[idself], True\n"
+             "            return self._add_missing(idself), False\n"
+             "        if (val := self_dict.get(idself)) is not None:\n"
+             "            return val, True\n"
+             "        return self._add_missing(idself), False\n"), None)
+# round-2 seed 2 (`_row_cy._apply_processors` reuses a list row in place) is the mutant `pure-row-apply-processors-in-place`
+# above; its behaviour-preserving twins copy on every path
+R.mutant("benign-pure-row-apply-processors-list-copied-by-slice", ROW,
+         sub("        res: List[Any] = list(data)\n        proc_size = len(proc)\n",
+             "        res: List[Any] = data[:] if type(data) is list else list(data)\n        proc_size = len(proc)\n"), None)
+R.mutant("benign-pure-row-apply-processors-copy-by-unpacking", ROW,
+         sub("        res: List[Any] = list(data)\n        proc_size = len(proc)\n",
+             "        row_values = [*data]\n        res: List[Any] = row_values\n        proc_size = len(proc)\n"), None)
